@@ -23,6 +23,18 @@ MODNAME = __name__
 DEFAULT_FAILED_COMMENT = "% WARNING Parsing failed for the following {n} lines."  # documented default text
 
 
+N_ANY = "\x00any-number\x00"
+
+
+def same_text(text, exp):
+    """text == exp, where every N_ANY in exp stands for some decimal number."""
+    if N_ANY not in exp:
+        return text == exp
+    import re
+
+    return re.fullmatch(re.escape(exp).replace(re.escape(N_ANY), "[0-9]+"), text, re.S) is not None
+
+
 def ref_render(lib, f):
     """Reference renderer written from the statement (and the forms pinned by tests/test_writer.py)."""
     indent = f.get("indent", "\t")
@@ -59,7 +71,11 @@ def ref_render(lib, f):
         elif isinstance(b, ImplicitComment):
             s = b.comment + "\n"
         elif isinstance(b, ParsingFailedBlock):
-            s = failed_comment.format(n=b.raw.count("\n") + 1) + "\n" + b.raw + "\n"
+            # {n}: the number of lines of the raw text. Where "lines" is ambiguous (an empty raw, a raw ending in a line
+            # break, line breaks other than LF) the statement fixes no number - any number is accepted there (N_ANY);
+            # the raw text itself is emitted verbatim in every case.
+            plain = b.raw != "" and not b.raw.endswith("\n") and len(b.raw.splitlines()) == b.raw.count("\n") + 1
+            s = failed_comment.format(n=(b.raw.count("\n") + 1) if plain else N_ANY) + "\n" + b.raw + "\n"
         else:
             raise harness.HarnessError("unknown block")
         out.append(s)
@@ -110,7 +126,9 @@ def o_write(inp):
         return (("library-mutated", "library changed by writing", "unchanged"), nontrivial, cls)
     # 1. reference renderer
     exp = ref_render(lib, f)
-    if text != exp:
+    if N_ANY in exp:
+        cls.append("failed-raw-with-ambiguous-line-count")
+    if not same_text(text, exp):
         # classify by the first differing block for a useful signature
         sig = "render"
         if failed and f.get("parsing_failed_comment") and f["parsing_failed_comment"].format(n=1)[:5] not in text:
@@ -217,7 +235,7 @@ def o_reuse(inp):
                 return (("reuse:format-mutated-by-failed-write", repr({k: getattr(fmt, k) for k in libgen.FORMAT_ATTRS}), repr(cur)), True, ("format-reuse", "interrupted-write"))
         text = bwriter.write(lib, fmt)
         exp = ref_render(lib, cur)
-        if text != exp:
+        if not same_text(text, exp):
             return (("reuse:stale-format-state", f"write #{i} with {cur!r}: {text!r}", repr(exp)), True, ("format-reuse",))
         if {k: getattr(fmt, k) for k in libgen.FORMAT_ATTRS} != cur:
             return (("reuse:format-mutated", repr({k: getattr(fmt, k) for k in libgen.FORMAT_ATTRS}), repr(cur)), True, ("format-reuse",))
@@ -274,7 +292,7 @@ def o_edited(inp):
     text = bwriter.write(lib, fmt)
     exp = ref_render(lib, f)
     cls = ["edited-after-read"]
-    if text != exp:
+    if not same_text(text, exp):
         return (("edited:stale-view", repr(text), repr(exp)), True, cls)
     return (None, n_applied > 0, cls)
 
